@@ -28,7 +28,7 @@ CM = 'xdoctest.checker._check_match'
 
 
 def run(ctx):
-    for fn in (r1_only_under_flag, r2_exact_without_marker, r3_bounds_reach_scan, r4_split_pattern, r4b_regex_gaps_span_newlines, r5_verdict_sources, r6_flag_read_is_current):
+    for fn in (r1_only_under_flag, r2_exact_without_marker, r3_bounds_reach_scan, r4_split_pattern, r4b_regex_gaps_span_newlines, r5_verdict_sources, r6_flag_read_is_current, r7_run_state_is_forwarded):
         ctx.rep.rule(fn, ctx)
 
 
@@ -331,6 +331,12 @@ def r4_split_pattern(ctx):
     # the pieces are used as literal text (find / startswith / endswith), never as patterns
     used_as_regex = [x for x in ast.walk(f.node) if isinstance(x, ast.Call) and ast.unparse(x.func) in ('re.search', 're.match', 're.findall', 're.fullmatch', 're.compile') ]
     rep.ob('C06.R4', ctx.loc(f, f.node), 'pieces compared as literal text', not used_as_regex, 'no regex matching of pieces' if not used_as_regex else 'pieces of the want are interpreted as regular expressions', nontrivial=False, anchor=EM)
+
+
+def r7_run_state_is_forwarded(ctx):
+    """the flags that decide this property reach the comparison only through the run state: same clause as C05.R11"""
+    from . import c05
+    c05.r11_run_state_is_forwarded(ctx, rule='C06.R7')
 
 
 # ---------------------------------------------------------------------------
